@@ -351,7 +351,8 @@ func checkC13(c *Ctx) error {
 			seen := map[string]int{}
 			for k := 0; k < volReps; k++ {
 				var diag, rep bytes.Buffer
-				ok := verifhook.GenerateLexerOnly(dir, &diag, &rep)
+				ok := false
+				c.Guard("ParseLox + report + EmitLexer on g.lox", map[string]string{"g.lox": pc.Lox}, func() { ok = verifhook.GenerateLexerOnly(dir, &diag, &rep) })
 				h := sha256.New()
 				fmt.Fprintf(h, "%v|", ok)
 				h.Write(rep.Bytes())
